@@ -76,6 +76,26 @@ PROPS = {
                  "'fails loudly': update_* are proved panic-free exactly when every referenced id has an image; the converse (a missing image panics rather than writing an index) is by inspection of the three `None => panic!` arms"],
         "design_ref": "DESIGN.md §4 V2 V3, §5 C09",
     },
+    "C25": {
+        "title": "Iterators visit every instruction exactly once in order",
+        "units": ["V5_iter"],
+        "obligations": ["V5_iter.FuncSubIterator.*", "V5_iter.fn:FuncSubIterator::*", "V5_iter.ModuleSubIterator.*", "V5_iter.fn:ModuleSubIterator::*",
+                        "V5_iter.handle_skips.*", "V5_iter.fn:lemma_next_live", "V5_iter.fn:next_live"],
+        "glue": ["ModuleIterator::{new,next,curr_loc,curr_op,reset} forward to the sub-iterator (module_iterator.rs) and Module::get_func_metadata builds the (function, #instructions) list: not under contract",
+                 "profile: every listed function has at least one instruction (a parsed body ends with `end`)"],
+        "design_ref": "DESIGN.md §4 V5, §5 C25",
+        "level_text": "Start state, successor step (same function / first instruction of the next unskipped function / exhausted) and reported location + end flag of the sub-iterators are proved for all metadata and skip lists, including empty and all-skipped; 'exactly once, in order' is the induction over these step contracts.",
+    },
+    "C26": {
+        "title": "Component iteration and injection match module-level behaviour",
+        "units": ["V5_iter"],
+        "obligations": ["V5_iter.ComponentSubIterator.*", "V5_iter.fn:ComponentSubIterator::*", "V5_iter.ModuleSubIterator.*", "V5_iter.fn:ModuleSubIterator::*",
+                        "V5_iter.handle_skips.*", "V5_iter.fn:next_module_with_work", "V5_iter.fn:lemma_next_live"],
+        "glue": ["ComponentIterator injection methods (component_iterator.rs) delegate to the same LocalFunction methods as ModuleIterator: compared by reading, not under contract",
+                 "ComponentSubIterator::new / reset (HashMap clone plumbing) and ComponentIterator::new (metadata construction) are not under contract"],
+        "design_ref": "DESIGN.md §4 V5, §5 C26",
+        "level_text": "The component-level step is proved to be the module-level step inside a module and, at a module's end, the start state of the next module that has an unskipped function; iteration only - injection equivalence is glue.",
+    },
     "C14": {
         "title": "Added locals get fresh indices of the requested type",
         "units": ["V1_locals"],
